@@ -10,7 +10,7 @@ t0 = time.time()
 crashes = 0
 for i in range(N):
     try:
-        sc, steps = coregen.gen_scenario(rng)
+        sc, steps = coregen.gen_scenario(rng, profile=json.loads(os.environ.get("BULK_PROFILE", "{}")))
     except Exception as e:
         crashes += 1
         import traceback; traceback.print_exc()
